@@ -626,16 +626,21 @@ pub fn generate(plan: &Plan, sink: &mut dyn FnMut(Input)) {
         let a3: Vec<char> = "aB_: ".chars().collect();
         // the only two non-ASCII characters that case folding sends to ASCII letters (long s, Kelvin sign)
         let a4: Vec<char> = "sS\u{17f}kK\u{212a} ".chars().collect();
+        // camelCase material: ties between extending a run and arriving out of a gap where the two options carry
+        // different consecutive bonuses need 6-7 characters and a needle of 4
+        let a6: Vec<char> = "aAbB-".chars().collect();
         if thorough {
             family_e(&a1, 6, 4, 2, 40, plan.seed, sink);
             family_e(&a2, 5, 3, 2, 8, plan.seed, sink);
             family_e(&a3, 6, 3, 2, 8, plan.seed, sink);
             family_e(&a4, 5, 4, 2, 8, plan.seed, sink);
+            family_e(&a6, 7, 4, 0, 100, plan.seed, sink);
         } else {
             family_e(&a1, 5, 3, 2, 60, plan.seed, sink);
             family_e(&a2, 4, 3, 2, 12, plan.seed, sink);
             family_e(&a3, 5, 3, 1, 40, plan.seed, sink);
             family_e(&a4, 4, 3, 1, 6, plan.seed, sink);
+            family_e(&a6, 7, 4, 0, 400, plan.seed, sink);
         }
     }
     if want("R") {
